@@ -8,6 +8,7 @@
 From Coq Require Import ZArith NArith List Lia.
 From Arsenal Require Import Util Bits Gran Tlsf TlsfGeom TlsfInv1 TlsfStep TlsfProps SizeClass TlsfInv2 TlsfStep2 TlsfProps2 GranInv GranTlsf.
 From Arsenal Require Linear LinearInv LinearAlloc LinearFree LinearStep LinearSwap LinearVisit LinearProps.
+From Arsenal Require VamDev VamBlockList Vam VamInv VamInvThm VamAcctThm VamBal VamBalThm VamNpThm VamFailProps.
 Import ListNotations.
 Open Scope Z_scope.
 
@@ -72,3 +73,24 @@ Proof.
 Qed.
 
 End LinearHalf.
+
+(* ---------------------------------------------------------------- whole allocator (model Vam*.v)
+   No operation of the public API panics (or reaches a state the model cannot continue from): for every state
+   reachable by histories whose callers obey the map discipline (reachB), every operation whose slots exist
+   (op_ok), whose sizes are below 2^62 (op_dom), that does not Unmap without a Map or Free with outstanding user
+   maps (op_bal) and whose pool handle is that of a live pool (op_live; a stale *Pool is a dangling Go pointer) -
+   with ANY other arguments (sizes <= 0, alignments that are not powers of two, contradictory flags, unknown
+   usages ... reach the error branches) and ANY driver-fault oracle - returns success or an error.  The panic
+   branches of the modelled code are proved dead inside this domain.  Defragmentation operations:
+   decided by the vamh exploration (every op runs under recover()) until dstep_never_panics lands.
+   "A refusal changes nothing": C10_allocator_failed_alloc_no_trace / _same_regions / _failed_create_* (Props/C10.v)
+   state it for every failed allocation-type operation. *)
+Module Allocator.
+Import VamDev VamBlockList Vam VamInv VamInvThm VamAcctThm VamBal VamBalThm VamNpThm.
+
+Theorem C13_allocator_never_panics : forall c v G o f v' r calls,
+  cfg_acct c -> reachB c v G -> op_ok v o -> op_dom o -> op_bal G o -> op_live v o ->
+  step c v o f = (v', r, calls) -> r <> RPanic /\ r <> RStuck.
+Proof. intros c v G o f v' r calls Ha. exact (step_never_panics c Ha v G o f v' r calls). Qed.
+Print Assumptions C13_allocator_never_panics.
+End Allocator.
